@@ -458,6 +458,11 @@ class NetworkService(ModelElement):
         # (e.g. through interfaces of a node both services connect to) is not a peering
         if len(sp) != 5:
             raise TopologyException(f"Network services {self.name} and {ns.name} do not peer!")
+        # both ends of a peering link are service ports; a node port connected to the other service is not a peering
+        for cp in (sp[1], sp[-2]):
+            _, cp_props = self.topo.graph_model.get_node_properties(node_id=cp)
+            if cp_props.get(ABCPropertyGraph.PROP_TYPE, None) != str(InterfaceType.ServicePort):
+                raise TopologyException(f"Network services {self.name} and {ns.name} do not peer!")
         # remove ConnectionPoints and link between them
         self.topo.graph_model.remove_cp_and_links(node_id=sp[1])
         ns.topo.graph_model.remove_cp_and_links(node_id=sp[-2])
